@@ -254,25 +254,21 @@ func c15Mint(c *Ctx) {
 		c.Check(good, rule, key+" signer", sig.Pos(), "HS256 under UserSigningKey", "the inner signer is not HS256 under security.UserSigningKey")
 	}
 	// claims
-	var std *ssa.Alloc
-	eachInstr(fn, func(in ssa.Instruction) {
-		if al, ok := in.(*ssa.Alloc); ok && typeIs(al.Type(), joseJWT, "Claims") {
-			std = al
-		}
-	})
-	if std == nil {
+	st, stdPos, holdsStd, okStd := c.claimsOf(fn)
+	if !okStd {
 		c.Undecided(rule, key+" claims", fn.Pos(), "claims literal not found")
 		return
 	}
-	st := structFieldStores(std)
 	iss, isC := constString(first(st["Issuer"]))
-	c.Check(isC && ver.ok && iss == ver.issuer, rule, key+" issuer", std.Pos(), "issuer "+strconvQuote(iss)+" equals the verifier's", "minted issuer "+strconvQuote(iss)+" differs from the verifier's "+strconvQuote(ver.issuer))
-	if ok, how := expiryShape(first(st["Expiry"]), fiveMinutesNs); ok {
-		c.OK(rule, key+" expiry", std.Pos(), "expiry is %s", how)
+	c.Check(isC && ver.ok && iss == ver.issuer, rule, key+" issuer", stdPos, "issuer "+strconvQuote(iss)+" equals the verifier's", "minted issuer "+strconvQuote(iss)+" differs from the verifier's "+strconvQuote(ver.issuer))
+	// (the property bounds the lifetime of PAA tokens, C02, not of user tokens: any expiry counted
+	// from the moment of minting will do)
+	if ok, how := expiryShape(first(st["Expiry"]), 0); ok {
+		c.OK(rule, key+" expiry", stdPos, "expiry is %s", how)
 	} else {
-		c.Bad(rule, key+" expiry", std.Pos(), "user tokens must expire within five minutes: %s", how)
+		c.Bad(rule, key+" expiry", stdPos, "user tokens must carry an expiry counted from the moment of minting: %s", how)
 	}
-	c.Check(first(st["Subject"]) == ssa.Value(fn.Params[1]), rule, key+" subject", std.Pos(), "subject = the user name parameter", "subject is not the user name parameter")
+	c.Check(first(st["Subject"]) == ssa.Value(fn.Params[1]), rule, key+" subject", stdPos, "subject = the user name parameter", "subject is not the user name parameter")
 
 	// every returned token is an encrypted serialisation of those claims
 	for i, r := range returnsOf(fn) {
@@ -292,7 +288,7 @@ func c15Mint(c *Ctx) {
 			hasClaims := false
 			for _, bc := range chain {
 				if strings.HasSuffix(calleeName(bc), ".Claims") {
-					if a, ok := loadAddr(strip(arg(bc, 0))); ok && a == ssa.Value(std) {
+					if holdsStd(arg(bc, 0)) {
 						hasClaims = true
 					}
 				}
